@@ -56,26 +56,39 @@ def getPreference (s : PState) (name : String) : Outcome String :=
 
 def asciiLower (s : String) : String := s.map fun c => if 'A' ≤ c ∧ c ≤ 'Z' then Char.ofNat (c.toNat + 32) else c
 
+/-- the language `set_separators` works with: `Auto` stands for the language the host gave in `LanguageAuto`, and for English before it gave one -/
+def effLanguage (s : PState) (languageCountry : String) : String :=
+  if languageCountry ≠ "Auto" then languageCountry
+  else match prefToString s "LanguageAuto" with
+    | some la => if la = "" || la = noPreference then "en" else la
+    | none => "en"
+
+/-- the separators of a language tag and a (valid) `DecimalSeparator` value: (`DecimalSeparators`, `BlockSeparators`) -/
+def deriveSeparators (languageCountry dec : String) : String × String :=
+  let lc := asciiLower languageCountry
+  let parts := lc.splitOn "-"
+  let language := parts.getD 0 ""
+  let country := parts.getD 1 ""
+  let usePeriod :=
+    if dec = "Auto" then MC.Gen.Prefs.useDecimalPoint.contains lc || MC.Gen.Prefs.useDecimalPoint.contains language
+    else dec = "."
+  (if usePeriod then "." else ",",
+   (if usePeriod then ", \u00A0\u202F" else ". \u00A0\u202F") ++ (if country = "ch" || country = "li" then "'" else ""))
+
+def validDec (dec : String) : Bool := dec = "Auto" || dec = "," || dec = "."
+
 /-- `set_separators` (src/prefs.rs): derive DecimalSeparators / BlockSeparators from language + DecimalSeparator pref -/
 def setSeparators (s : PState) (languageCountry : String) : PState :=
   let dec := (prefToString s "DecimalSeparator").getD noPreference
-  if !(dec = "Auto" || dec = "," || dec = ".") then s
-  else if languageCountry = "Auto" && dec = "Auto" then s
+  if !validDec dec then s
   else
-    let lc := asciiLower languageCountry
-    let parts := lc.splitOn "-"
-    let language := parts.getD 0 ""
-    let country := parts.getD 1 ""
-    let usePeriod :=
-      if dec = "Auto" then MC.Gen.Prefs.useDecimalPoint.contains lc || MC.Gen.Prefs.useDecimalPoint.contains language
-      else dec = "."
-    let block := (if usePeriod then ", \u00A0\u202F" else ". \u00A0\u202F") ++ (if country = "ch" || country = "li" then "'" else "")
-    { s with user := pset (pset s.user "DecimalSeparators" (.str (if usePeriod then "." else ","))) "BlockSeparators" (.str block) }
+    let d := deriveSeparators (effLanguage s languageCountry) dec
+    { s with user := pset (pset s.user "DecimalSeparators" (.str d.1)) "BlockSeparators" (.str d.2) }
 
 /-- `reset_files_from_preference_change`: the only effect on the maps is the `Language := Auto` special case -/
 def resetFiles (E : Env) (s : PState) (pref value : String) : Outcome PState :=
   if pref = "Language" && value = "Auto" then
-    .ok { s with api := pset s.api "LanguageAuto" ((pget s.api "Language").getD (.str "en")) }
+    .ok { s with api := pset s.api "LanguageAuto" ((pget s.user "Language").getD (.str "en")) }
   else if E.filesOk pref value then .ok s else .err "file-not-found"
 
 def strOf? : Val → Option String
@@ -130,14 +143,21 @@ def storeUser (s1 : PState) (key value : String) : Outcome PState :=
         | none => .ok (setSeparators s2 "en")
       else .ok s2
 
-/-- `set_string_pref` -/
-def setStringPref (E : Env) (s : PState) (key value : String) : Outcome PState :=
+/-- `set_string_pref` up to the store into one of the two maps -/
+def setStringPrefCore (E : Env) (s : PState) (key value : String) : Outcome PState :=
   match chooseMap E s key value with
   | .err k => .err k
   | .panic p => .panic p
   | .ok (s1, isUser) =>
     if isUser then storeUser s1 key value
     else .ok { s1 with api := pset s1.api key (.str value) }
+
+/-- `set_string_pref`: with `LanguageAuto` the language that `Language = Auto` stands for is known, and it decides the separators -/
+def setStringPref (E : Env) (s : PState) (key value : String) : Outcome PState :=
+  match setStringPrefCore E s key value with
+  | .ok s2 => .ok (if key = "LanguageAuto" then setSeparators s2 value else s2)
+  | .err k => .err k
+  | .panic p => .panic p
 
 /-- `is_boolean_pref` -/
 def isBooleanPref (s : PState) (key : String) : Option Bool :=
